@@ -189,7 +189,26 @@ func runCfgCase(c *cfgCase, bin, dir string) (kind, what string, inconcl string)
 			flags = append(flags, "-"+k, v)
 		}
 	}
-	// anything that falls back to a built-in default uses machine-global resources: serialise those runs
+	// where "-config <file>" stands among the other options must not matter: first, last or in the middle
+	{
+		cf := []string{"-config", filepath.Join(dir, "vflow.conf")}
+		switch c.Index % 3 {
+		case 0:
+			flags = append(cf, flags...)
+		case 1:
+			flags = append(flags, cf...)
+		default:
+			// flags are "-k v" pairs or single "-k=v" words: split at a word that starts an option
+			at := 0
+			for i := len(flags) / 2; i < len(flags); i++ {
+				if strings.HasPrefix(flags[i], "-") && (i == 0 || !(strings.HasPrefix(flags[i-1], "-") && !strings.Contains(flags[i-1], "="))) {
+					at = i
+					break
+				}
+			}
+			flags = append(append(append([]string{}, flags[:at]...), cf...), flags[at:]...)
+		}
+	}
 	usesDefault := false
 	for _, k := range ckeys {
 		if strings.Contains(c.Sources[k.Name], "→ default") && (strings.HasPrefix(k.Role, "port") || k.Role == "stats-port" || k.Role == "pid-file" || strings.HasPrefix(k.Role, "cache")) {
